@@ -791,7 +791,9 @@ def _len_guards(body, bb):
             if lo[0] == "call" and re.search(r"(::len|::remaining)$", callee_name(lo[2]) or ""):
                 eff = op if truth else {"Lt": "Ge", "Ge": "Lt", "Gt": "Le", "Le": "Gt", "Eq": "Ne", "Ne": "Eq"}[op]
                 ids = _buf_ids(body, lo[2]["ops"][0])
-                if _mutated_between(body, ids, s_, bb):
+                # the length must still be current at the site: nothing may shrink the buffer between the *read* of
+                # the length (which can be earlier than the comparison: `let available = bytes.len(); ...`) and the site
+                if _mutated_between(body, ids, s_, bb) or (isinstance(lo[1], int) and _mutated_between(body, ids, lo[1], bb)):
                     continue
                 out.append((ids, eff, y, d))
     return out
